@@ -349,6 +349,16 @@ def src(node: ast.AST) -> str:
         return "<?>"
 
 
+def slice_src(node: ast.AST) -> str:
+    """normalised text of a subscript's slice (python 3.12 unparse wraps tuples in parentheses)"""
+    t = " ".join(src(node).split())
+    if isinstance(node, ast.Tuple) and t.startswith("(") and t.endswith(")"):
+        t = t[1:-1].strip()
+        if t.endswith(","):
+            t = t[:-1]
+    return t
+
+
 def norm(node: ast.AST) -> str:
     """Normalised statement text used for structural keys (no line numbers)."""
     return " ".join(src(node).split())
@@ -609,3 +619,36 @@ def run_property(pid: str, rulefn: Callable[[Check], None], level: str, tier: st
         for l in out_lines:
             print(l)
     return (1 if new_viol else 0), ev
+
+
+# --------------------------------------------------------------------------
+# guarded statement walk (syntactic branch context of each simple statement)
+# --------------------------------------------------------------------------
+
+
+def walk_guarded(fnode: ast.AST):
+    """yield (guards, stmt) for every statement of a function body (not nested defs);
+    guards = list of (test-expr, polarity) or ('case', pattern-src, True) for match arms"""
+    out = []
+
+    def visit(body, guards):
+        for st in body:
+            out.append((guards, st))
+            if isinstance(st, ast.If):
+                visit(st.body, guards + [(st.test, True)])
+                visit(st.orelse, guards + [(st.test, False)])
+            elif isinstance(st, (ast.For, ast.While, ast.With)):
+                visit(st.body, guards)
+                visit(getattr(st, "orelse", []) or [], guards)
+            elif isinstance(st, ast.Try):
+                visit(st.body, guards)
+                for h in st.handlers:
+                    visit(h.body, guards + [(h, True)])
+                visit(st.orelse, guards)
+                visit(st.finalbody, guards)
+            elif isinstance(st, ast.Match):
+                for c in st.cases:
+                    visit(c.body, guards + [(("case", st.subject, c.pattern), True)])
+
+    visit(fnode.body, [])  # type: ignore[attr-defined]
+    return out
